@@ -178,8 +178,10 @@ def check(prop, ev, bounds=None, cvc5_cross=False):
         try:
             import simlemmas
             mo, mf = simlemmas.obligations(S)
-            obls = obls + mo
-            fns = sorted(set(fns) | set(mf))
+            vo, vf = simlemmas.variable_obligations(S)
+            do, df = simlemmas.details_merge_obligations(S)
+            obls = obls + mo + vo + do
+            fns = sorted(set(fns) | set(mf) | set(vf) | set(df))
         except Unencodable as e:
             inconc.append(f"unencodable (assignment simulation lemma): {e}")
         try:
@@ -235,6 +237,12 @@ def check(prop, ev, bounds=None, cvc5_cross=False):
             elif role.endswith(":state-follows-the-runtime-paths"):
                 import typeflowlemmas
                 res = [(a, b, {}) for a, b in typeflowlemmas.battery()]
+            elif role == "C12:Variable:constant-matches-runtime":
+                import simlemmas
+                res = [(a, b, {}) for a, b in simlemmas.variable_battery()]
+            elif role.endswith(":constant-kept-only-when-both-sides-agree"):
+                import simlemmas
+                res = [(a, b, {}) for a, b in simlemmas.merge_battery()]
             elif role.endswith(":recorded-constant-is-the-stored-value"):
                 import simlemmas
                 res = [(a, b, {}) for a, b in simlemmas.battery()]
